@@ -148,6 +148,8 @@ const PREFIXES: &[Option<&str>] = &[None, Some("sub"), Some("dst")];
 const UNIVERSE: &[&str] = &["foo", "bar", "sub/foo", "dst/foo"];
 /// names that begin with a prefix's characters without the separator, next to the real thing
 const UNIVERSE2: &[&str] = &["subfoo", "sub/foo", "dstfoo", "dst/foo"];
+/// the same names in another letter case (patterns and prefixes are case sensitive)
+const UNIVERSE3: &[&str] = &["Foo", "foo", "sub/FOO", "SUB/foo"];
 
 fn all_rules() -> Vec<ArtifactRule> {
     let mut v = vec![];
@@ -180,7 +182,11 @@ fn all_rules() -> Vec<ArtifactRule> {
 
 fn gen_arts(r: &mut Rng, normalized: bool) -> Vec<(String, u8)> {
     let mut v = vec![];
-    let uni = if r.chance(2, 3) { UNIVERSE } else { UNIVERSE2 };
+    let uni = match r.below(6) {
+        0 | 1 | 2 => UNIVERSE,
+        3 | 4 => UNIVERSE2,
+        _ => UNIVERSE3,
+    };
     for p in uni {
         if r.chance(1, 2) {
             v.push((p.to_string(), *r.pick(DIGEST_POOL)));
@@ -213,7 +219,8 @@ pub fn run(cfg: &Cfg) {
     // ---- library specs: glob and path-clean
     let pats = ["*", "?", "**", "***", "a*", "*a", "a*b*c", "[", "[]", "[!]", "[a]", "[!a]", "[a-c]", "[c-a]", "[]]", "[a-]", "[-a]", "[!a-c]x",
         "**/x", "a/**", "a/**/b", "a**", "**a", "a/**b", "**/**/x", "/**/", "", "foo", "f?o", "sub/*", "s*/f*", "*.py", "[[]", "[a-c][!x]*", "a[", "a[b", "?*?", "*/*"];
-    let strs = ["", "a", "ab", "abc", "foo", "sub/foo", "a/b/x", "x", "a/x", "a/b", "a", "foo.py", "]", "-", "[", "b", "c", "ax", "bx", "dx", "/", "//", "a/", "sub/", "a/b/c/x"];
+    let strs = ["", "a", "ab", "abc", "foo", "sub/foo", "a/b/x", "x", "a/x", "a/b", "a", "foo.py", "]", "-", "[", "b", "c", "ax", "bx", "dx", "/", "//", "a/", "sub/", "a/b/c/x",
+        "A", "FOO", "Foo", "SUB/foo", "foo.PY", "B", "Ax"];
     for p in pats {
         for s in strs {
             let ans = match glob::Pattern::new(p) {
@@ -231,16 +238,24 @@ pub fn run(cfg: &Cfg) {
         }
     }
     let n_glob = if cfg.thorough { 40_000 } else { 4_000 };
-    let alpha: Vec<char> = "ab/*?[]!-.x".chars().collect();
+    let alpha: Vec<char> = "abAB/*?[]!-.x\u{e9}\u{c9}".chars().collect();
     for _ in 0..n_glob {
         let p: String = (0..r.below(7)).map(|_| *r.pick(&alpha)).collect();
-        let s: String = (0..r.below(6)).map(|_| *r.pick(&['a', 'b', '/', 'x', '.', '-', ']'])).collect();
+        let s: String = (0..r.below(6)).map(|_| *r.pick(&['a', 'b', 'A', 'B', '/', 'x', '.', '-', ']', '\u{e9}', '\u{c9}'])).collect();
         let ans = match glob::Pattern::new(&p) {
             Ok(pt) => pt.matches(&s).to_string(),
             Err(_) => "none".into(),
         };
         sink.stat(&format!("glob/{}", ans));
         sink.op(&format!("glob {} {}", hexs(&p), hexs(&s)), &ans, true);
+        // the repo's wrapper is the library's `matches` (default options), on every pair
+        if let Ok(vp) = VirtualTargetPath::new(s.clone()) {
+            let w = match hooks::path_matches(&vp, &p) {
+                Ok(b) => b.to_string(),
+                Err(_) => "none".into(),
+            };
+            sink.oracle(w == ans, "VirtualTargetPath::matches disagrees with glob::Pattern::matches", &format!("glob {} {}", hexs(&p), hexs(&s)));
+        }
     }
     let paths = ["", ".", "..", "/", "//", "a", "a/", "a//b", "a/./b", "a/../b", "../a", "a/..", "a/../..", "/..", "/../a", "./", "./a", "a/b/../../c", "/a/../..", "..//", "a/.", "é/../x", "a/...", ".../a", ".a", "a/.b/.."];
     for p in paths {
@@ -289,7 +304,7 @@ pub fn run(cfg: &Cfg) {
     //      over every artifact universe subset with one digest choice
     let mut scope = 0u64;
     let subsets = if cfg.thorough { 16 } else { 16 };
-    for (uni, rule) in [UNIVERSE, UNIVERSE2].iter().flat_map(|u| rules.iter().map(move |rl| (*u, rl))) {
+    for (uni, rule) in [UNIVERSE, UNIVERSE2, UNIVERSE3].iter().flat_map(|u| rules.iter().map(move |rl| (*u, rl))) {
         for mask_m in 0..subsets {
             for mask_p in [0usize, 1, 5, 10, 15] {
                 if !cfg.thorough && (mask_m % 3 != 0) {
